@@ -99,18 +99,7 @@ def run_registry(desc):
     calls = {n.id for n in ir.nodes if n.kind == "call"}
 
     def eff_anc(i):
-        """what node i depends on IN THIS RUN: dependencies are followed through nodes that execute or are rebuilt, not through stored
-        values that are up to date (those are simply read from their store)"""
-        seen, st = set(), list(preds[i])
-        while st:
-            u = st.pop()
-            if u in seen:
-                continue
-            seen.add(u)
-            if u in S.reg and not exp.ood.get(u):
-                continue
-            st.extend(preds[u])
-        return {u for u in seen if not (u in S.reg and not exp.ood.get(u))}
+        return S.eff_anc(exp, i)
 
     raised = {nid for nid in H.raised}
     bad = None
